@@ -1,2 +1,142 @@
--- stub driver for C14: replaced when the property's model exists
-def main : IO Unit := pure ()
+import Snel.Model.Proto
+import Snel.Model.Materialize
+/-!
+Driver for C14. One line = one history:
+
+    show | op | op | …
+
+ops
+* `E key ts id shard ctx x`      an applied STORE (ids as observed on the engine)
+* `F shard` / `C shard` / `B`    flush of a shard (file time far in the future of all stamps),
+                                  compaction round, backdating of the segment files
+* `REM n ctx cmp since now fr`   REMEMBER under name n; `ctx` = `*`|c, `cmp` = `*`|`eq:v`|`ge:v`…,
+                                  `since` = `*`|t; `fr` = the frames the engine stored, batches
+                                  separated by `;`, keys by `,` (`-` = none)
+* `SHOW n fr`                    SHOW n; `fr` = the frames the engine appended
+* `Q ctx cmp since`              the live query
+
+observations, joined by ` ; `:
+`rem:ok mark=<ts>,<id>|none`, `rem:dup`, `rem:bad-frames want=<keys>`,
+`show:<keys> mark=…`, `show:unknown`, `show:bad-delta want=<keys>`, `q:<keys>`.
+The frames are scheduling input: the model checks that they are a split of what its own
+query returns (and, for SHOW, of what its own watermark filter keeps) and otherwise answers
+`bad-…`, which never equals the implementation's line.
+-/
+open Snel Snel.Proto Snel.Materialize
+
+def bigTime : Nat := 100000000000
+
+def keysStr (ks : List Nat) : String :=
+  let s := ks.mergeSort (fun a b => decide (a ≤ b))
+  if s.isEmpty then "-" else ",".intercalate (s.map toString)
+
+def markStr : Option (Nat × Nat) → String
+  | none => "none"
+  | some (a, b) => s!"{a},{b}"
+
+def parseOpt (t : String) : Option (Option Nat) :=
+  if t == "*" then some none else t.toNat?.map some
+
+def parseCmp (t : String) : Option (Option (Cmp × Nat)) :=
+  if t == "*" then some none else
+  match t.splitOn ":" with
+  | [o, v] =>
+    match v.toNat? with
+    | none => none
+    | some v =>
+      match o with
+      | "eq" => some (some (.eq, v))
+      | "ge" => some (some (.ge, v))
+      | "le" => some (some (.le, v))
+      | "gt" => some (some (.gt, v))
+      | "lt" => some (some (.lt, v))
+      | _ => none
+  | _ => none
+
+def parseFrames (t : String) : Option (List (List Nat)) :=
+  if t == "-" then some [] else
+  (t.splitOn ";").mapM fun b => (b.splitOn ",").mapM (·.toNat?)
+
+def lookupKey (vis : List Ev) (k : Nat) : Option Ev := vis.find? (·.key == k)
+
+def framesOf (vis : List Ev) (fr : List (List Nat)) : Option (List (List Ev)) :=
+  fr.mapM fun b => b.mapM (lookupKey vis)
+
+def sameKeys (a b : List Nat) : Bool := keysStr a == keysStr b
+
+structure DSt where
+  st : St
+  out : List String
+  bad : Bool
+
+def emit (d : DSt) (s : String) : DSt := { d with out := s :: d.out }
+
+def stepOp (d : DSt) (toks : List String) : DSt :=
+  if d.bad then d else
+  let fail : DSt := { d with bad := true }
+  match toks with
+  | ["E", key, ts, id, shard, ctx, x] =>
+    match key.toNat?, ts.toNat?, id.toNat?, shard.toNat?, ctx.toNat?, x.toNat? with
+    | some key, some ts, some id, some shard, some ctx, some x =>
+      { d with st := step d.st (.store { ts, id, shard, key, ctx, x }) }
+    | _, _, _, _, _, _ => fail
+  | ["F", shard] =>
+    match shard.toNat? with
+    | some sh => { d with st := { d.st with store := d.st.store.flush sh bigTime } }
+    | none => fail
+  | ["C", shard] =>
+    match shard.toNat? with
+    | some sh => { d with st := { d.st with store := d.st.store.compact sh bigTime } }
+    | none => fail
+  | ["B"] => { d with st := { d.st with store := d.st.store.backdate } }
+  | ["REM", n, ctx, cmp, since, now, fr] =>
+    match n.toNat?, parseOpt ctx, parseCmp cmp, parseOpt since, now.toNat?, parseFrames fr with
+    | some n, some ctx, some cmp, some since, some now, some fr =>
+      let q := ({ ctx, cmp, since } : QSpec).toSpec
+      match d.st.cat n with
+      | some _ => emit { d with st := (remember d.st n q now []).1 } "rem:dup"
+      | none =>
+        let want := (runQuery d.st.store q none).map (·.key)
+        match framesOf d.st.store.vis fr with
+        | none => emit d s!"rem:bad-frames want={keysStr want}"
+        | some sched =>
+          if !sameKeys fr.flatten want then emit d s!"rem:bad-frames want={keysStr want}" else
+          let (st', ok) := remember d.st n q now sched
+          let mk := match st'.cat n with | some e => markStr e.mark | none => "?"
+          emit { d with st := st' } (if ok then s!"rem:ok mark={mk}" else "rem:dup")
+    | _, _, _, _, _, _ => fail
+  | ["SHOW", n, fr] =>
+    match n.toNat?, parseFrames fr with
+    | some n, some fr =>
+      match d.st.cat n with
+      | none => emit d "show:unknown"
+      | some e =>
+        let w0 := sinkMark e.frames
+        let want := ((deltaQuery d.st.store e).filter (fun r => lexGt r.pos w0)).map (·.key)
+        match framesOf d.st.store.vis fr with
+        | none => emit d s!"show:bad-delta want={keysStr want}"
+        | some sched =>
+          if !sameKeys fr.flatten want then emit d s!"show:bad-delta want={keysStr want}" else
+          let (st', rows) := showM d.st n sched
+          let mk := match st'.cat n with | some e => markStr e.mark | none => "?"
+          match rows with
+          | some rows => emit { d with st := st' } s!"show:{keysStr (rows.map (·.key))} mark={mk}"
+          | none => emit d "show:unknown"
+    | _, _ => fail
+  | ["Q", ctx, cmp, since] =>
+    match parseOpt ctx, parseCmp cmp, parseOpt since with
+    | some ctx, some cmp, some since =>
+      let q := ({ ctx, cmp, since } : QSpec).toSpec
+      emit d s!"q:{keysStr ((runQuery d.st.store q none).map (·.key))}"
+    | _, _, _ => fail
+  | _ => fail
+
+def answer (line : String) : String :=
+  match (line.trimAscii.toString.splitOn " | ") with
+  | "show" :: ops =>
+    let d := ops.foldl (fun d op => stepOp d (words op)) { st := St.init, out := [], bad := false }
+    if d.bad then "bad-op" else
+    if d.out.isEmpty then "-" else " ; ".intercalate d.out.reverse
+  | _ => "bad-op"
+
+def main : IO Unit := serve answer
